@@ -21,6 +21,9 @@ type Route struct {
 	PathVars   []string `json:"path_vars"`
 	QueryNames []string `json:"query_names"`
 	HasBody    bool     `json:"has_body"`
+	// QueryRequired: the query parameters the artefact marks required (go-http table, OpenAPI
+	// document); the clients and the TS server carry no such flag.
+	QueryRequired []string `json:"query_required"`
 }
 
 func (r Route) Canon() Route {
@@ -30,26 +33,31 @@ func (r Route) Canon() Route {
 	if r.QueryNames == nil {
 		r.QueryNames = []string{}
 	}
+	if r.QueryRequired == nil {
+		r.QueryRequired = []string{}
+	}
 	return r
 }
 
 func (r Route) Equal(o Route) bool {
 	return r.Verb == o.Verb && r.Template == o.Template && r.HasBody == o.HasBody &&
 		strings.Join(r.PathVars, "\x00") == strings.Join(o.PathVars, "\x00") &&
-		strings.Join(r.QueryNames, "\x00") == strings.Join(o.QueryNames, "\x00")
+		strings.Join(r.QueryNames, "\x00") == strings.Join(o.QueryNames, "\x00") &&
+		strings.Join(r.QueryRequired, "\x00") == strings.Join(o.QueryRequired, "\x00")
 }
 
 // key: "Service.Method" (proto names)
 type Table map[string]Route
 
 var (
-	reHandle   = regexp.MustCompile(`config\.mux\.Handle\("([A-Z]+) ([^"]*)", (\w+)Handler\)`)
-	reBind     = regexp.MustCompile(`(?s)(\w+)Handler := BindingMiddleware\[.*?\n\s*(\w+)PathParams, (\w+)QueryParams,\n\s*"([A-Z]*)", config\.errorHandler,`)
-	rePathCfg  = regexp.MustCompile(`var (\w+)PathParams = \[\]PathParamConfig\{((?:\n\s*\{[^\n]*\},)*)\n?\}`)
-	reQueryCfg = regexp.MustCompile(`var (\w+)QueryParams = \[\]QueryParamConfig\{((?:\n\s*\{[^\n]*\},)*)\n?\}`)
-	reURLParam = regexp.MustCompile(`URLParam: "([^"]*)"`)
-	reQName    = regexp.MustCompile(`QueryName: "([^"]*)"`)
-	reRegister = regexp.MustCompile(`func Register(\w+)Server\(`)
+	reHandle    = regexp.MustCompile(`config\.mux\.Handle\("([A-Z]+) ([^"]*)", (\w+)Handler\)`)
+	reBind      = regexp.MustCompile(`(?s)(\w+)Handler := BindingMiddleware\[.*?\n\s*(\w+)PathParams, (\w+)QueryParams,\n\s*"([A-Z]*)", config\.errorHandler,`)
+	rePathCfg   = regexp.MustCompile(`var (\w+)PathParams = \[\]PathParamConfig\{((?:\n\s*\{[^\n]*\},)*)\n?\}`)
+	reQueryCfg  = regexp.MustCompile(`var (\w+)QueryParams = \[\]QueryParamConfig\{((?:\n\s*\{[^\n]*\},)*)\n?\}`)
+	reURLParam  = regexp.MustCompile(`URLParam: "([^"]*)"`)
+	reQName     = regexp.MustCompile(`QueryName: "([^"]*)"`)
+	reQRequired = regexp.MustCompile(`Required: (true|false)`)
+	reRegister  = regexp.MustCompile(`func Register(\w+)Server\(`)
 )
 
 func lowerFirst(s string) string {
@@ -92,9 +100,21 @@ func GoHTTP(f *ir.File, res *plug.Result) (Table, error) {
 		}
 	}
 	qcfg := map[string][]string{}
+	qreq := map[string][]string{}
 	for _, m := range reQueryCfg.FindAllStringSubmatch(src, -1) {
-		for _, u := range reQName.FindAllStringSubmatch(m[2], -1) {
+		for _, row := range strings.Split(m[2], "\n") {
+			u := reQName.FindStringSubmatch(row)
+			if u == nil {
+				continue
+			}
 			qcfg[m[1]] = append(qcfg[m[1]], u[1])
+			rq := reQRequired.FindStringSubmatch(row)
+			if rq == nil {
+				return nil, fmt.Errorf("go-http: QueryParamConfig row without a Required flag: %s", row)
+			}
+			if rq[1] == "true" {
+				qreq[m[1]] = append(qreq[m[1]], u[1])
+			}
 		}
 	}
 	t := Table{}
@@ -106,7 +126,7 @@ func GoHTTP(f *ir.File, res *plug.Result) (Table, error) {
 		}
 		verb := h[1]
 		// the verb handed to BindingMiddleware decides body binding
-		t[k] = Route{Verb: verb, Template: h[2], PathVars: pcfg[b[2]], QueryNames: qcfg[b[3]],
+		t[k] = Route{Verb: verb, Template: h[2], PathVars: pcfg[b[2]], QueryNames: qcfg[b[3]], QueryRequired: qreq[b[3]],
 			HasBody: b[4] == "POST" || b[4] == "PUT" || b[4] == "PATCH"}.Canon()
 		if b[4] != verb {
 			r := t[k]
@@ -323,6 +343,9 @@ func OpenAPI(f *ir.File, res *plug.Result) (Table, map[string]int, error) {
 							r.PathVars = append(r.PathVars, fmt.Sprint(pm["name"]))
 						case "query":
 							r.QueryNames = append(r.QueryNames, fmt.Sprint(pm["name"]))
+							if rq, _ := pm["required"].(bool); rq {
+								r.QueryRequired = append(r.QueryRequired, fmt.Sprint(pm["name"]))
+							}
 						}
 					}
 				}
